@@ -275,6 +275,7 @@ func c11A4Builder(r *core.R, it *c11Interp, b *c11Builder) {
 			idxBad = append(idxBad, "the child stored at list index i is "+c11Trunc(C.key())+", not shared.From…(<history>[i]) of the element at the same position")
 		}
 		nVI := 0
+		gotRev := false
 		for _, ev := range st.ev[loopAt+1:] {
 			if ev.kind == "store" && ev.lhs.k == "field" && ev.lhs.xs[0].key() == C.key() {
 				switch ev.lhs.obj.Name() {
@@ -285,7 +286,17 @@ func c11A4Builder(r *core.R, it *c11Interp, b *c11Builder) {
 						idxBad = append(idxBad, "`"+src(r.P.Fset, ev.node)+"`: VersionIndex must be the loop position i (Compute indexes child[VersionIndex+1...])")
 					}
 				case "ReverseOfPrevious":
+					// the flag is IsReverse(<history>[i], <history>[i-1]) for every index > 0 and false (set or left
+					// untouched) for the first version, however the guard is spelled (if, &&, a flag variable)
+					positive := c11IntPositive(st, key, ev.nas)
+					if f, isConst := ev.rhs.constBool(); isConst {
+						if f || positive != c11F {
+							revBad = append(revBad, "`"+src(r.P.Fset, ev.node)+"` sets ReverseOfPrevious to the constant "+ev.rhs.key()+" on a path that has not decided i == 0: for every later version the flag must be IsReverse(<history>[i], <history>[i-1])")
+						}
+						continue
+					}
 					nRev++
+					gotRev = true
 					okArgs := false
 					if args, ok := ev.rhs.isFuncCall(c11AnnPath, "IsReverse"); ok && len(args) == 2 {
 						prev := &c11V{k: "index", xs: []*c11V{X, c11Bin(token.SUB, key, c11Int(1))}}
@@ -293,12 +304,14 @@ func c11A4Builder(r *core.R, it *c11Interp, b *c11Builder) {
 					}
 					if !okArgs {
 						revBad = append(revBad, "`"+src(r.P.Fset, ev.node)+"`: ReverseOfPrevious must be IsReverse(<history>[i], <history>[i-1]), the comparison with the previous version in the sorted history")
-					} else if st.truthAt(c11Bin(token.NEQ, key, c11Int(0)), ev.nas, nil) != c11T && st.truthAt(c11Bin(token.LSS, c11Int(0), key), ev.nas, nil) != c11T &&
-						st.truthAt(c11Bin(token.LSS, key, c11Int(1)), ev.nas, nil) != c11F { // the key of a range loop is an int: !(i < 1) is i != 0
+					} else if positive != c11T {
 						revBad = append(revBad, "`"+src(r.P.Fset, ev.node)+"` is reached on a path that has not decided i != 0: <history>[i-1] indexes before the first version")
 					}
 				}
 			}
+		}
+		if elemIsWay && !gotRev && c11IntPositive(st, key, -1) == c11T {
+			revBad = append(revBad, "an iteration with i > 0 can end without computing ReverseOfPrevious: updates of way members lose their Reverse flag")
 		}
 		if nVI != 1 {
 			idxBad = append(idxBad, "an iteration can end without assigning the child's VersionIndex (or assigns it several times)")
@@ -338,4 +351,16 @@ func c11Trunc(s string) string {
 		return s[:157] + "..."
 	}
 	return s
+}
+
+// c11IntPositive: what the path (its first upto assumptions) has decided about the integer position i > 0,
+// whatever the spelling: i != 0, i > 0, 0 < i, !(i < 1), !(i == 0), i >= 1.
+func c11IntPositive(st *c11St, i *c11V, upto int) c11Tri {
+	if t := st.truthAt(c11Bin(token.NEQ, i, c11Int(0)), upto, nil); t != c11U {
+		return t
+	}
+	if t := st.truthAt(c11Bin(token.LSS, c11Int(0), i), upto, nil); t != c11U {
+		return t
+	}
+	return c11TriNot(st.truthAt(c11Bin(token.LSS, i, c11Int(1)), upto, nil))
 }
